@@ -109,30 +109,81 @@ theorem occursIn_lower (a b : Bytes) (h : occursIn a b = true) : occursIn (lower
   obtain ⟨p, q, rfl⟩ := h
   exact ⟨lower p, lower q, by simp [lower]⟩
 
-/-! ### a finding for every cell whose text contains the token -/
+/-! ### ScanString / scanTable compute the specified view -/
 
-/-- the keyword pre-filter lets the detector through when one of its keywords occurs in the token
-(as is, or ignoring ASCII case), or when it has no keywords -/
-def KeywordOccurs (det : Detector) (tok : Bytes) : Prop :=
-  det.keywords = [] ∨ ∃ kw ∈ det.keywords, occursIn kw tok = true ∨ occursIn (lower kw) (lower tok) = true
+/-- the keyword loop of ScanString decides `keywordPass` -/
+theorem keywordPass_eq (det : Detector) (s : Bytes) :
+    (!(det.keywords.any fun kw => bytesContains s kw || containsIgnoreCase s kw) && decide (det.keywords.length > 0))
+      = !keywordPass det s := by
+  have hany : (det.keywords.any fun kw => bytesContains s kw || containsIgnoreCase s kw)
+      = det.keywords.any fun kw => occursIn kw s || occursIn (lower kw) (lower s) := by
+    congr 1; funext kw; rw [bytesContains_eq, containsIgnoreCase_eq]
+  rw [hany]
+  simp only [keywordPass]
+  cases hk : det.keywords with
+  | nil => simp
+  | cons k ks => simp
 
-theorem scanWith_finds (det : Detector) (tok : Bytes) (r : DetResult) (s : Bytes)
-    (hk : KeywordOccurs det tok) (hs : occursIn tok s = true)
-    (hd : ∃ found, det.fromData s = some found ∧ r ∈ found) : r ∈ scanWith s det := by
-  obtain ⟨found, hf, hr⟩ := hd
+theorem scanWith_eq (data : Bytes) (det : Detector) :
+    scanWith data det = if keywordPass det data then (det.fromData data).getD [] else [] := by
   simp only [scanWith]
-  have hpass : ¬ ((!(det.keywords.any fun kw => bytesContains s kw || containsIgnoreCase s kw) && decide (det.keywords.length > 0)) = true) := by
-    rcases hk with h0 | ⟨kw, hkw, hocc⟩
-    · simp [h0]
-    · have : (det.keywords.any fun kw => bytesContains s kw || containsIgnoreCase s kw) = true := by
-        rw [List.any_eq_true]
-        refine ⟨kw, hkw, ?_⟩
-        rw [bytesContains_eq, containsIgnoreCase_eq, Bool.or_eq_true]
-        rcases hocc with h | h
-        · exact Or.inl (occursIn_trans _ _ _ h hs)
-        · exact Or.inr (occursIn_trans _ _ _ h (occursIn_lower _ _ hs))
-      simp [this]
-  rw [if_neg hpass, hf]
-  exact hr
+  rw [keywordPass_eq]
+  cases keywordPass det data
+  · simp
+  · cases det.fromData data <;> simp
+
+/-- Go's ScanString = the specified per-text view -/
+theorem scanString_eq (dets : List Detector) (data : Bytes) : scanString dets data = scanText dets data := by
+  simp only [scanString, scanText]
+  congr 1; funext det; exact scanWith_eq data det
+
+theorem mem_scanText (dets : List Detector) (text : Bytes) (r : DetResult) :
+    r ∈ scanText dets text ↔ ∃ det ∈ dets, keywordPass det text = true ∧ ∃ found, det.fromData text = some found ∧ r ∈ found := by
+  simp only [scanText, List.mem_flatMap]
+  constructor
+  · rintro ⟨det, hdet, hr⟩
+    by_cases hk : keywordPass det text = true
+    · rw [if_pos hk] at hr
+      cases hf : det.fromData text with
+      | none => rw [hf] at hr; cases hr
+      | some found => rw [hf] at hr; exact ⟨det, hdet, hk, found, hf, hr⟩
+    · rw [if_neg hk] at hr; cases hr
+  · rintro ⟨det, hdet, hk, found, hf, hr⟩
+    exact ⟨det, hdet, by rw [if_pos hk, hf]; exact hr⟩
+
+theorem fmtV_nil_short (sh : GoVal → Bytes) : (fmtV sh .nil).length < 8 := by
+  simp [fmtV]
+
+/-- one column of one row: the findings of its cell (nothing when the row has no such column: `<nil>` is too short) -/
+theorem scanCell_eq (dets : List Detector) (sh : GoVal → Bytes) (db tbl : Bytes) (i : Nat) (row : Row) (c : Bytes) :
+    scanCell dets sh db tbl i row c =
+      ((lookup c row).map fun v => (c, v)).toList.flatMap (cellFindings dets sh db tbl i) := by
+  simp only [scanCell, scanString_eq]
+  cases lookup c row with
+  | none => simp [fmtV_nil_short]
+  | some v =>
+    simp only [Option.getD_some, Option.map_some, Option.toList_some, List.flatMap_cons, List.flatMap_nil, List.append_nil,
+      cellFindings]
+
+theorem scanRow_eq (dets : List Detector) (sh : GoVal → Bytes) (db tbl : Bytes) (i : Nat) (row : Row) :
+    ∀ l : List Bytes, l.flatMap (scanCell dets sh db tbl i row) =
+      (l.filterMap fun c => (lookup c row).map fun v => (c, v)).flatMap (cellFindings dets sh db tbl i)
+  | [] => rfl
+  | c :: l => by
+    simp only [List.flatMap_cons, List.filterMap_cons]
+    rw [scanRow_eq dets sh db tbl i row l, scanCell_eq]
+    cases lookup c row <;> simp
+
+/-- **main equation of the secret scan**: ScanDumpResult returns exactly the specified view, for every dump -/
+theorem scan_eq_expected (dets : List Detector) (sh : GoVal → Bytes) (d : Dump) :
+    scanDumpResult dets sh d = expectedFindings dets sh d := by
+  simp only [scanDumpResult, expectedFindings]
+  congr 1; funext D
+  simp only [scanDatabaseDump]
+  congr 1; funext t
+  simp only [scanTable]
+  congr 1; funext ri
+  simp only [rowCells, rowKeys_eq]
+  exact scanRow_eq dets sh D.name t.name ri.2 ri.1 _
 
 end PgVerif.Proofs.Secrets
